@@ -127,6 +127,7 @@ type Probe struct {
 	Arg Expr
 }                                // probe("id") or probe("id", arg): logs, evaluates to the id token
 type Eq struct{ A, B Expr }      // a == b
+type Concat struct{ A, B Expr }  // a + b on strings
 type Ints struct{ From, To int } // ints(a,b): range subject only
 type Exec struct {
 	Name string
@@ -167,8 +168,9 @@ func (e Probe) src() string {
 	}
 	return fmt.Sprintf("probe(%q)", e.ID)
 }
-func (e Eq) src() string   { return e.A.src() + " == " + e.B.src() }
-func (e Ints) src() string { return fmt.Sprintf("ints(%d, %d)", e.From, e.To) }
+func (e Eq) src() string     { return e.A.src() + " == " + e.B.src() }
+func (e Concat) src() string { return e.A.src() + " + " + e.B.src() }
+func (e Ints) src() string   { return fmt.Sprintf("ints(%d, %d)", e.From, e.To) }
 func (e Exec) src() string {
 	if e.Ctx != nil {
 		return fmt.Sprintf("exec(%q, %s)", e.Name, e.Ctx.src())
